@@ -1,5 +1,5 @@
 import abc
-from typing import List, Sequence
+from typing import Dict, List, Optional, Sequence
 
 import numpy as np
 
@@ -19,6 +19,21 @@ class Assembly(ElementBase, abc.ABC):
     @property
     def center(self):
         return np.average([shape.center for shape in self.shapes], axis=0)
+
+    @property
+    def geometry(self) -> Optional[Dict]:
+        """Searchable surfaces defined by the shapes of this assembly
+        (for instance, a sphere's blocks are projected to its own searchableSphere)"""
+        geometry: Dict = {}
+
+        for shape in self.shapes:
+            if shape.geometry is not None:
+                geometry.update(shape.geometry)
+
+        if len(geometry) == 0:
+            return None
+
+        return geometry
 
     @property
     def operations(self) -> List[Operation]:
